@@ -240,6 +240,39 @@ fn hash_part<const P: u128>(case: &HashCase, cached_slot: usize, st: &mut Stats)
         if exact {
             let dt = bdd_tt(d2);
             check("top-down (semantic store)".into(), d2.semantic_hash(&map).value(), false, dt)?;
+            // over the 64-bit field CNF compilation and conditioning by the hash-identified store are claimed to
+            // be correct: the compiled diagram, and every conditioning of it and of its negation, asked twice
+            // (the second answer comes from nodes the first one stored under their hashes)
+            ensure!(
+                dt == t,
+                "C11/semantic-builder-wrong-function:compile_cnf_topdown",
+                "SemanticDecisionNNFBuilder over GF({}) compiled a diagram denoting {:?}; the CNF denotes {:?}",
+                P,
+                dt,
+                t
+            );
+            for round in 0..2 {
+                for v in 0..n {
+                    for val in [false, true] {
+                        for (neg, base) in [(false, d2), (true, d2.neg())] {
+                            let c = rsdd::builder::TopDownBuilder::condition(&sem_b, base, VarLabel::new_usize(v), val);
+                            let want_c = if neg { dt.not().cofactor(v, val) } else { dt.cofactor(v, val) };
+                            ensure!(
+                                bdd_tt(c) == want_c,
+                                "C11/semantic-builder-wrong-function:condition",
+                                "SemanticDecisionNNFBuilder: condition({}compiled diagram, x{} = {}) asked for the {} time denotes {:?}, the restricted function is {:?}",
+                                if neg { "NOT " } else { "" },
+                                v,
+                                val,
+                                if round == 0 { "first" } else { "second" },
+                                bdd_tt(c),
+                                want_c
+                            );
+                        }
+                    }
+                }
+            }
+            st.bump("semantic_store_conditionings_checked");
         }
     }
     st.add("representations", reps);
@@ -262,7 +295,7 @@ pub fn run_hash(case: &HashCase, st: &mut Stats) -> CaseResult {
 impl SubCheckT for Hash {
     type Case = HashCase;
     const NAME: &'static str = "hash";
-    const RULE: &'static str = "a function (random truth table or CNF) represented as BDDs under 3 orders, SDDs under 2 vtrees (compressed / uncompressed), an SDD built by the hash-identified builder and, for CNFs, both top-down stores; for the exported 32-bit primes and the 64-bit prime: every semantic_hash equals the defining sum over models of the product of the map's weights (harness mulmod), negations hash to 1 - h, cached_semantic_hash (BDD: order+map, SDD: vtree manager+map; one prime per builder) equals the recomputed hash twice in a row and after further operations, for the root and every internal BDD node. Non-trivial: non-constant, >=3 support variables (>=9 representations each)";
+    const RULE: &'static str = "a function (random truth table or CNF) represented as BDDs under 3 orders, SDDs under 2 vtrees (compressed / uncompressed), an SDD built by the hash-identified builder and, for CNFs, both top-down stores (over the 64-bit field the hash-identified store's compilation and every conditioning of the result and of its negation, asked twice, must denote the right function); for the exported 32-bit primes and the 64-bit prime: every semantic_hash equals the defining sum over models of the product of the map's weights (harness mulmod), negations hash to 1 - h, cached_semantic_hash (BDD: order+map, SDD: vtree manager+map; one prime per builder) equals the recomputed hash twice in a row and after further operations, for the root and every internal BDD node. Non-trivial: non-constant, >=3 support variables (>=9 representations each)";
     fn cases(tier: Tier) -> u32 {
         tier.pick(4000, 50_000)
     }
